@@ -467,6 +467,31 @@ def rule_absorb_keyed(ctx):
         r.bad(Finding("absorb-keyed", f.qualname,
                       f"record stores keyed on absorb are {got}; the first split factor is written to site `{s0}` and the second to `{s1}`, so "
                       f"'left' must record ({s0}, {s0}) and 'right' ({s1}, {s1})", where=where))
+    # the chain on absorb is total: any other mode (weights shared between / kept apart from the two tensors) leaves neither site an
+    # isometry, so the record has to be widened to both sites — an if/elif chain without a recording else keeps the single site that
+    # was recorded before the split
+    if opt is not None:
+        chain_total = False
+        for n in ast.walk(f.node):
+            if isinstance(n, ast.If) and isinstance(n.test, ast.Compare) and isinstance(n.test.left, ast.Name) and n.test.left.id == opt[0] and _record_stores(n.body):
+                cur = n
+                while len(cur.orelse) == 1 and isinstance(cur.orelse[0], ast.If):
+                    cur = cur.orelse[0]
+                tail = _record_stores(cur.orelse) if cur.orelse else []
+                if tail:
+                    pair = _pair_of(tail[0].value)
+                    if pair and set(pair) == {s0, s1}:
+                        chain_total = True
+                    elif pair:
+                        r.bad(Finding("absorb-keyed", f.qualname, f"for the remaining absorb modes the record stores {pair}; both swapped sites ({s0}, {s1}) carry weights there",
+                                      where=where, operand="else-range"))
+                        chain_total = True
+        if chain_total:
+            r.ok("swap_sites_with_compress[other modes]", sample={"other absorb modes": f"record widened to ({s0}, {s1})"})
+        else:
+            r.bad(Finding("absorb-keyed", f.qualname,
+                          "the record is only written for absorb == 'left' / 'right': with the default mode (weights on both tensors) it keeps the single site recorded "
+                          f"before the split although neither `{s0}` nor `{s1}` is an isometry afterwards", where=where, operand="other-modes"))
     # ---- gate_with_submpo
     g = ctx.prog.func("quimb.tensor.tn1d.core", "MatrixProductState.gate_with_submpo")
     if g is None:
